@@ -63,6 +63,10 @@ CHECKS = {
             "Generated intent strings (grammatical, mutants, arbitrary Unicode, honoured form) on 9 kinds of host element x both recovery settings; never a panic; under IgnoreIntent speech succeeds and, for strings a reference recogniser proves illegal, equals the speech without the attribute; under Error illegal strings yield Err; name(args) with a made-up name mentions the name and every referenced literal; speech is repeatable and the intent attributes are still on the stored expression afterwards.",
             "Intents naming concepts MathCAT knows (plus, power, ...) are only checked for panics when grammatical (wrong arity makes the concept's own rule fail, which the statement does not cover).",
             "DESIGN.md 3/C19"),
+    "C10": ("model-based property testing over API histories: every observed output is compared with a fresh-session reference model",
+            "Generated histories (preference changes over 22 preferences, other expressions, getters, navigation, cursor routing) followed by a target assignment of all those preferences in generated order, the probe expression, getters in generated order and multiplicity and away-and-back toggles; each output must be byte-identical (ids normalised) to a fresh session that establishes the same assignment, sets the expression and calls that getter once; a share of cases runs beside independent sessions in other threads.",
+            "Thread interleavings are sampled, not explored (all state is thread-local). Outputs are only observed while the target assignment is in force (documented: an expression is canonicalised with the preferences current at set_mathml time).",
+            "DESIGN.md 3/C10"),
 }
 
 NOT_YET = "check not built yet in this round (machinery in progress; see DESIGN.md section 7 build order)"
